@@ -583,6 +583,9 @@ func (tc *typechecker) typeof(expr ast.Expression, typeExpected bool) *typeInfo 
 				panic(tc.errorf(ident, "invalid macro result type %s", ident.Name))
 			}
 		}
+		if len(in)+len(out) > maxFuncParamsCount {
+			panic(tc.errorf(expr, "function parameters and results count exceeded %d", maxFuncParamsCount))
+		}
 		expr.Reflect = tc.types.FuncOf(in, out, variadic)
 		return &typeInfo{Type: expr.Reflect, Properties: propertyIsType}
 
